@@ -1475,6 +1475,13 @@ func (x *Exec) applyContractTail(cfg *Config, f *Frame, fn *ssa.Function, c *Fun
 	var forks []*Config
 	// havoc
 	x.havocModifies(cfg, env, c)
+	if contractTouchesGhostState(c) && !ghostExplicit(c) {
+		// the callee may call unknown functions / change once, atomic or
+		// channel state: only its postcondition is known about them (a
+		// contract that lists calls(f) / atomics / onces / chans in its
+		// modifies clause is havocked precisely, above)
+		x.havocGhostState(cfg.st)
+	}
 	// results
 	var sig *types.Signature
 	if fn != nil {
@@ -1609,6 +1616,21 @@ func (x *Exec) resolveModEntry(env *SpecEnv, e Expr) []modTarget {
 			b := x.slBase(v.T)
 			return []modTarget{{arr: x.elemsArr(sl.Elem()), sort: SArr(SInt, SArr(x.idxSort(), x.sortOf(sl.Elem()))), loc: &b, elems: true}}
 		}
+		if ee.Fn == "calls" {
+			// calls(f): the ghost call counter and history of the function value f
+			fv := x.spec(env, ee.Args[0])
+			sig := sigOfType(fv.Ty)
+			if sig == nil {
+				unsupported("modifies calls(%s): not a function value", ee.Args[0].exprString())
+			}
+			b := fv.T
+			out := []modTarget{{arr: callsArrName(sig), sort: SArr(SInt, x.idxSort()), loc: &b}}
+			for pos := 0; pos < sig.Results().Len(); pos++ {
+				srt := x.sortOf(sig.Results().At(pos).Type())
+				out = append(out, modTarget{arr: fmt.Sprintf("$callret!%d!%s!%s", pos, srt, sigKey(sig)), sort: SArr(SInt, SArr(x.idxSort(), srt)), loc: &b})
+			}
+			return out
+		}
 		if ee.Fn == "cell" {
 			// cell(x): the captured variable x itself
 			id := ee.Args[0].(EIdent)
@@ -1621,8 +1643,15 @@ func (x *Exec) resolveModEntry(env *SpecEnv, e Expr) []modTarget {
 			return []modTarget{{arr: x.cellArr(el), sort: SArr(SInt, x.sortOf(el)), loc: &b}}
 		}
 	case EIdent:
-		if ee.Name == "nothing" {
+		switch ee.Name {
+		case "nothing":
 			return nil
+		case "atomics":
+			return []modTarget{{arr: "$atomic", sort: SArr(SInt, x.idxSort())}, {arr: "$atomicb", sort: SArr(SInt, SBool)}}
+		case "onces":
+			return []modTarget{{arr: "$oncedone", sort: SArr(SInt, SBool)}}
+		case "chans":
+			return []modTarget{{arr: "$closed", sort: SArr(SInt, SBool)}, {arr: "$recvready", sort: SArr(SInt, SBool)}}
 		}
 	}
 	unsupported("modifies entry %s", e.exprString())
@@ -1891,7 +1920,8 @@ func (x *Exec) applyGhostSetIn(cfg *Config, env *SpecEnv, gs *Clause, evalSt *St
 
 // frameChecks proves that nothing outside the modifies clause changed.
 func (x *Exec) frameChecks(cfg *Config, env *SpecEnv) {
-	if x.c.Options["noframe"] == "true" {
+	noframe := x.c.Options["noframe"] == "true"
+	if noframe && !ghostExplicit(x.c) {
 		return
 	}
 	oenv := env.withState(cfg.old)
@@ -1901,14 +1931,49 @@ func (x *Exec) frameChecks(cfg *Config, env *SpecEnv) {
 		byArr[t.arr] = append(byArr[t.arr], t)
 	}
 	top0 := x.d.Const("H0!$top", SInt) // objects allocated by this invocation may change freely
+	ghostFramed := ghostExplicit(x.c)
+	if !contractTouchesGhostState(x.c) && !ghostFramed {
+		// a contract that is silent about calls of unknown functions, once,
+		// atomic and channel state promises not to change them (its callers
+		// rely on that)
+		changed := cfg.st.gepoch != cfg.old.gepoch
+		var eqs []Term
+		for _, name := range sortedKeys(cfg.st.heap) {
+			if !isGhostStateArr(name) {
+				continue
+			}
+			cur := cfg.st.heap[name]
+			old, had := cfg.old.heap[name]
+			if !had {
+				old = x.d.Const("H0!"+name, cur.Sort)
+				if cfg.old.gepoch > 0 {
+					old = x.d.Const(fmt.Sprintf("G%d!%s", cfg.old.gepoch, name), cur.Sort)
+				}
+			}
+			if cur.S != old.S {
+				eqs = append(eqs, Eq(cur, old))
+			}
+		}
+		if changed {
+			x.oblige(cfg, "frame", "ghost call/once/atomic/channel state (contract is silent about it)", False, nil, token.NoPos)
+		} else if len(eqs) > 0 {
+			x.oblige(cfg, "frame", "ghost call/once/atomic/channel state (contract is silent about it)", And(eqs...), nil, token.NoPos)
+		}
+	}
 	for _, name := range sortedKeys(cfg.st.heap) {
-		if strings.HasPrefix(name, "$") {
+		if strings.HasPrefix(name, "$") && !(ghostFramed && isGhostStateArr(name)) {
+			continue
+		}
+		if noframe && !isGhostStateArr(name) {
 			continue
 		}
 		cur := cfg.st.heap[name]
 		old, had := cfg.old.heap[name]
 		if !had {
 			old = x.d.Const("H0!"+name, cur.Sort)
+			if isGhostStateArr(name) && cfg.old.gepoch > 0 {
+				old = x.d.Const(fmt.Sprintf("G%d!%s", cfg.old.gepoch, name), cur.Sort)
+			}
 		}
 		if cur.S == old.S {
 			continue
@@ -1928,6 +1993,9 @@ func (x *Exec) frameChecks(cfg *Config, env *SpecEnv) {
 		// positive; embedded sub-objects are negative and owned by a root)
 		root := x.d.Fun("subroot", []Sort{SInt}, SInt)
 		conds := []Term{Or(And(Gt(o, IntLit(0)), Le(o, top0)), And(Lt(o, IntLit(0)), Gt(root(o), IntLit(0)), Le(root(o), top0)))}
+		if isGhostStateArr(name) {
+			conds = []Term{True} // indexed by function values / sync objects of any kind
+		}
 		for _, t := range ts {
 			conds = append(conds, Neq(o, *t.loc))
 		}
